@@ -258,17 +258,33 @@ fn gen_pair(src: &mut Src) -> Pair {
             let t1 = t1s.as_str();
             let v1 = [3i128, 255, 70000][src.pick(3)];
             let t2 = leaf(src);
+            // tags on the template's components (half of the cases): the module's TAGS default
+            // applies to them in the instantiation exactly as in the type written out
+            let (ta, tb, tc) = match src.pick(6) {
+                0 => ("[0] ", "[1] ", "[2] "),
+                1 => ("[0] EXPLICIT ", "[1] ", "[2] IMPLICIT "),
+                2 => ("[APPLICATION 4] ", "[PRIVATE 5] ", "[6] "),
+                _ => ("", "", ""),
+            };
+            // a CHOICE-typed first argument cannot be tagged implicitly
+            let ta = if ta.contains("IMPLICIT") { "[0] " } else { ta };
             let (params, tmpl, args, expd) = match np {
-                1 => ("Tp".to_string(), "a Tp, b INTEGER".to_string(), t1.to_string(), format!("a {t1x}, b INTEGER")),
-                2 => ("Tp, INTEGER:vp".to_string(), "a Tp, b INTEGER (0..vp)".to_string(), format!("{t1}, {v1}"), format!("a {t1x}, b INTEGER (0..{v1})")),
+                1 => ("Tp".to_string(), format!("a {ta}Tp, b {tb}INTEGER"), t1.to_string(), format!("a {ta}{t1x}, b {tb}INTEGER")),
+                2 => ("Tp, INTEGER:vp".to_string(), format!("a {ta}Tp, b {tb}INTEGER (0..vp)"), format!("{t1}, {v1}"), format!("a {ta}{t1x}, b {tb}INTEGER (0..{v1})")),
                 _ => (
                     "Tp, INTEGER:vp, Tq".to_string(),
-                    "a Tp, b INTEGER (0..vp), c SEQUENCE OF Tq".to_string(),
+                    format!("a {ta}Tp, b {tb}INTEGER (0..vp), c {tc}SEQUENCE OF Tq"),
                     format!("{t1}, {v1}, {t2}"),
-                    format!("a {t1x}, b INTEGER (0..{v1}), c SEQUENCE OF {t2}"),
+                    format!("a {ta}{t1x}, b {tb}INTEGER (0..{v1}), c {tc}SEQUENCE OF {t2}"),
                 ),
             };
-            let mut helpers = vec![format!("{p} {{{params}}} ::= SEQUENCE {{ {tmpl} }}")];
+            // a tag in front of the template's type: the instance carries it
+            let tt = match src.pick(6) {
+                0 => "[APPLICATION 3] ",
+                1 => "[9] EXPLICIT ",
+                _ => "",
+            };
+            let mut helpers = vec![format!("{p} {{{params}}} ::= {tt}SEQUENCE {{ {tmpl} }}")];
             helpers.extend(arg_helpers);
             // further instantiations of the same template must not disturb this one
             for k in 0..src.pick(3) {
@@ -280,11 +296,11 @@ fn gen_pair(src: &mut Src) -> Pair {
                 helpers.push(format!("Other-Inst{k} ::= {p} {{{other_args}}}"));
             }
             Pair {
-                kind: format!("parameterized x{np}{}", ["", " (argument constrained by a value reference)", " (argument is an instantiation)"][arg_kind]),
+                kind: format!("parameterized x{np}{}{}", ["", " (argument constrained by a value reference)", " (argument is an instantiation)"][arg_kind], if ta.is_empty() { "" } else { " (tagged template components)" }) + if tt.is_empty() { "" } else { " (tagged template)" },
                 sugared: arrange(src, helpers, format!("{TARGET} ::= {p} {{{args}}}")),
                 expanded: {
                     let mut e = arg_expanded_helpers;
-                    e.push(format!("{TARGET} ::= SEQUENCE {{ {expd} }}"));
+                    e.push(format!("{TARGET} ::= {tt}SEQUENCE {{ {expd} }}"));
                     e
                 },
                 // NULL as a type argument is taken for the NULL value: the instantiation stays an alias of the template name
